@@ -133,3 +133,22 @@ func RunFamily(c *core.Ctx, family string, bound, shardsPerProg, maxExecsPerJob 
 		c.Cov["exhaustive"] = true
 	}
 }
+
+func init() {
+	core.Replayers = append(core.Replayers, func(id string, raw json.RawMessage) (bool, []string) {
+		var r struct {
+			Family  string `json:"family"`
+			Tier    string `json:"tier"`
+			Prog    *int   `json:"prog"`
+			Choices []int  `json:"choices"`
+		}
+		if json.Unmarshal(raw, &r) != nil || r.Family == "" || r.Prog == nil || Families[r.Family] == nil {
+			return false, nil
+		}
+		key, what, hist, _ := Replay(Families[r.Family](r.Tier)[*r.Prog], r.Choices)
+		if key == "" {
+			return true, nil
+		}
+		return true, []string{key + ": " + what + " | history: " + hist}
+	})
+}
